@@ -107,6 +107,7 @@ def run_shape(ctx, label, shape, sample=None, rnd=None):
         if e["text"] not in seen:
             seen.add(e["text"])
             uniq.append(e)
+    uniq.sort(key=lambda e: e["text"])
     if sample and len(uniq) > sample:
         uniq = rnd.sample(uniq, sample)
     chunks = [uniq[i:i + 500] for i in range(0, len(uniq), 500)]
